@@ -1304,7 +1304,8 @@ impl fmt::Display for Type2<'_> {
     match self {
       Type2::IntValue { value, .. } => write!(f, "{}", value),
       Type2::UintValue { value, .. } => write!(f, "{}", value),
-      Type2::FloatValue { value, .. } => write!(f, "{}", value),
+      // `{:?}` keeps a fraction or exponent (1.0, 1e16), so the text stays a float literal
+      Type2::FloatValue { value, .. } => write!(f, "{:?}", value),
       Type2::TextValue { value, .. } => write!(f, "\"{}\"", value),
       Type2::UTF8ByteString { value, .. } => write!(
         f,
